@@ -143,7 +143,22 @@ static void op_utf8all(size_t len, const char* prefhex) {
   free(b);
 }
 
+/* F32ALL <hi16>: all 65536 binary32 patterns with the given upper half: digest over the bytes written by
+   cbor_encode_single and cbor_encode_half (5-byte and 3-byte buffers) */
+static void op_f32all(unsigned hi) {
+  uint64_t h = 1469598103934665603ULL; unsigned char b5[5], b3[3];
+  for (unsigned lo = 0; lo < 65536; lo++) {
+    uint32_t bits = ((uint32_t)hi << 16) | lo; float f; memcpy(&f, &bits, 4);
+    size_t r1 = cbor_encode_single(f, b5, 5), r2 = cbor_encode_half(f, b3, 3);
+    h = (h ^ r1) * 1099511628211ULL; h = (h ^ r2) * 1099511628211ULL;
+    for (int i = 0; i < 5; i++) h = (h ^ b5[i]) * 1099511628211ULL;
+    for (int i = 0; i < 3; i++) h = (h ^ b3[i]) * 1099511628211ULL;
+  }
+  printf("%" PRIu64 "\n", h);
+}
+
 int gen_op(int argc, char** w) {
+  if (argc == 2 && !strcmp(w[0], "F32ALL")) { op_f32all((unsigned)strtoul(w[1], 0, 10)); return 1; }
   if (argc == 3 && !strcmp(w[0], "UTF8ALL")) { op_utf8all(strtoull(w[1], 0, 10), w[2]); return 1; }
   if (argc == 2 && !strcmp(w[0], "SD")) { op_sd(w[1]); return 1; }
   if (argc == 4 && !strcmp(w[0], "ENC")) return op_enc(w[1], strtoull(w[2], 0, 10), strtoull(w[3], 0, 10));
